@@ -159,4 +159,28 @@ PROPS = {
         "assumptions": ["delivery tags are distinct among the unsettled deliveries of one link (the sender derives them from delivery-count)"],
         "partial": ["pre-settled sends (completed by the sender link without the session) and the receiver-side dispose paths are not in this model"],
     },
+    "C11": {
+        "class_prefixes": ["c11-", "harness-crash"],
+        "subs": [
+            {"name": "c11", "n_quick": 3000, "n_thorough": 100000, "model": "coq/Session/Ids.v, coq/Lib/Slab.v",
+             "rule": "lnk: histories of allocate (6 names, duplicates likely) / peer attach (sparse, large and reused input handles) / "
+                     "peer detach / local detach / route-a-transfer on one real Session; chn: pairs of local/remote channel-max from "
+                     "{0,1,2,3,4,5,65535} and histories of allocate-session / end+deallocate / peer begin (unknown, reused, unset "
+                     "remote-channel) / peer end / route-a-frame on one real Connection"},
+            {"name": "c07", "n_quick": 1500, "n_thorough": 50000, "model": "coq/Session/Window.v",
+             "rule": "delivery-id stamping: the C07 histories (the trace includes each frame's delivery-id and tag)"},
+        ],
+        "rule": "a case is one operation history run on the real Session / Connection (facade) and on the extracted Coq model, every "
+                "result compared (handle / channel numbers, error kinds, which link or session received the routed frame); "
+                "non-trivial = at least three successful operations; distinct by case text",
+        "trusted": ["model scope: Session::{allocate_link, allocate_incoming_link, deallocate_link, on_incoming_attach, on_incoming_detach, "
+                    "on_outgoing_detach}, routing by input handle; Connection::{allocate_session, deallocate_session, "
+                    "on_incoming_begin(_inner), on_incoming_end, session_tx_by_incoming_channel}; delivery-id stamping in "
+                    "on_outgoing_transfer_inner; link-level split of sender_link.rs (model + theorem; exercised by the engine checks)",
+                    "slab::Slab is modelled by its occupied entries + LIFO free list (coq/Lib/Slab.v), validated by the handle and "
+                    "channel numbers observed in the correspondence run"],
+        "assumptions": ["the generator keeps histories protocol-conformant where the property needs it: the peer's detach/end precedes the "
+                        "reuse of a handle/channel (a stale relay after reuse is a C13/C15 matter)"],
+        "partial": ["the link-level split is proved on its model; its correspondence with sender_link.rs is checked by the engine-level harness"],
+    },
 }
